@@ -3,7 +3,7 @@ CONSTANTS
   Ns = {6}
   Vals = {1, 2}
   Primes = {2, 3}
-  SampleEvery = 32
+  SampleEvery = 64
   ThEvery = 16
   ThDefEvery = 1
   ThDefMaxN = 0
